@@ -167,7 +167,7 @@ def run(ctx, chk):
     # anchors
     chk.floor("C20.anchors", "guarded products (idiom 1)", counts.get("1-guard-call", 0), 3)   # (four growth sites may share one helper)
     chk.floor("C20.anchors", "subtractive guards (idiom 3)", counts.get("3-subtractive-guard", 0), 1)
-    chk.floor("C20.anchors", "window terms (idiom 8)", counts.get("8-window", 0), 12)
+    chk.floor("C20.anchors", "window terms (idiom 8)", counts.get("8-window", 0), 6)   # (the serializers may share their window arithmetic in two helpers)
     chk.floor("C20.anchors", "post-check / saturation (idiom 4)", counts.get("4-post-check", 0), 1)
     for k, v in sorted(counts.items()):
         chk.ob("C20.anchors", "idiom %s: %d instruction(s)" % (k, v), True, "src/", key="count:" + k, nontrivial=False)
@@ -233,7 +233,7 @@ def run(ctx, chk):
     nss = len(list(ss.calls("_cbor_safe_signaling_add"))) + sum(len(list(prog.funcs[h_].calls("_cbor_safe_signaling_add")))
                                                                 for h_ in eff.transitive_callees(ss.name)
                                                                 if h_ in prog.funcs and prog.funcs[h_].internal and h_ != "_cbor_safe_signaling_add")
-    chk.floor("C20.signalling", "signalling adds in cbor_serialized_size", nss, 4)
+    chk.floor("C20.signalling", "signalling adds in cbor_serialized_size", nss, 2)   # (the string and container arms may share helpers)
 
     # ---- the guard helpers mean what their callers take them to mean
     import guard_rules
